@@ -124,7 +124,7 @@ RT = dict(name='updateGlobal/updateAuthor/updateMatrix', probe='k01r', fam=['gs'
           nontrivial=nt_any, rule='report lists with packed authors, unmatched author, out-of-range author')
 BD = dict(name='BurndownAnalysis.Consume(one branch)', probe='kbd', fam=['bd', 'fixed'], quick=3000, thorough=80000,
           case_start=r'^init ', nontrivial=nt_has('mod'),
-          rule='several files, 0-3 developers, canonical and broken scripts, wrong declared line counts')
+          rule='several files, 0-3 developers, canonical and broken scripts, wrong declared line counts, renames reported with an edit (also onto a tracked name)')
 DAG = dict(name='BurndownAnalysis.Consume/Fork/Merge', probe='kdag', fam=['dag', 'fixed'], quick=2000, thorough=60000,
            case_start=r'^init ', nontrivial=nt_has('fork', 'merge'), silent=r'^(begin|add|rm|mod|ren) ',
            rule='DAG runs with forks of arity 2-3, merge-mode replays, deletions/additions/renames with edits inside merges')
